@@ -161,6 +161,17 @@ def merge_and_report(prop, tier, seed, results, inconclusive, wall, replaying=Fa
                            'replay_cmd': './check %s --replay %s' % (prop, path)}, f, indent=1)
             replay_paths.append(path)
 
+    if fresh_total > 0 and not replay_paths:
+        # witnesses were not stored (storage caps): still leave a file describing what fired
+        rdir = os.path.join(VERIF, 'replays', prop)
+        os.makedirs(rdir, exist_ok=True)
+        path = os.path.join(rdir, 'seed%d-%s-summary.json' % (seed, tier))
+        with open(path, 'w') as f:
+            json.dump({'property': prop, 'seed': seed, 'tier': tier, 'case_number': 0,
+                       'mechanisms': {m: n for m, n in mech_counts.items() if m not in listed},
+                       'note': 'witness details were not stored; re-run ./check %s --tier %s with VERIF_SEED=%d' % (prop, tier, seed)}, f, indent=1)
+        replay_paths.append(path)
+
     coverage = {
         'evaluations': ev['evaluations'],
         'distinct_nontrivial': len(sigs),
